@@ -3,35 +3,50 @@ import itertools
 
 ID = "C07"
 HARNESS_PKG = "h_c07"
-COQ_IMPORTS = "From PV Require Import Model.Heights Model.Cursor Oracle.C06 Oracle.C07.\nOpen Scope N_scope."
+COQ_IMPORTS = "From PV Require Import Model.Heights Model.Cursor Model.AckConc Oracle.C06 Oracle.C07.\nOpen Scope N_scope."
 COQ_SHARD = 400
 TECHNIQUE = ("Coq proof (cursor state = pointwise maximum of all advances, permutation invariance, monotonicity of every stored cursor "
-             "under any history of acks, rejection of foreign-topic acks) + differential correspondence of the Gallina model with the real "
-             "Cursor::advance and the real Acked::ack / Acked::cursor over an in-memory SqliteStore")
+             "under any history of acks, rejection of foreign-topic acks; for k CONCURRENT acks through one Acked an LTS with the semaphore permit "
+             "modelled and a proof by induction over the schedule that every interleaving is serialisable) + differential correspondence of the "
+             "Gallina model with the real Cursor::advance and the real Acked::ack / Acked::cursor over in-memory and file-backed SqliteStores, "
+             "concurrent calls replayed step by step through cfg-gated schedule points")
 LEVEL_TEXT = ("Theorems C07_advance_is_max / C07_advance_perm / C07_advance_monotone (any cursor, any sequence of advances) and C07_ack_monotone / "
               "C07_ack_all_monotone / C07_ack_foreign_rejected / C07_ack_reaches / C07_ack_all_is_max / C07_ack_only_own_topic (any cursor store, any "
               "history of acks through any set of Acked instances with any names and topics) are proved in Coq without bounds; "
-              "C07_oracle_adv_sound shows the advance oracle implies the max equation for every (author, log). The model is tied to "
+              "C07_oracle_adv_sound shows the advance oracle implies the max equation for every (author, log). "
+              "Concurrent calls on ONE Acked (and its clones) are modelled as a transition system (Model/AckConc.v: acquire the permit - FIFO queue -, "
+              "topic check, read, advance, begin, write, release, in the order of the code) and C07_concurrent_acks_max / C07_concurrent_acks_as_sequential / "
+              "C07_concurrent_acks_monotone hold for EVERY schedule and any number of calls: when all calls have returned the stored cursor is the pointwise "
+              "maximum of the initial cursor and the accepted acks (= what the calls give one after the other) and no stored entry ever decreases in between; "
+              "C07_concurrent_acks_unserialised_read_refuted / C07_concurrent_acks_early_release_refuted show by witness that the two re-orderings 'read before "
+              "acquire' and 'release before write' lose acknowledgements in the same model (regression lemmas, not findings). The model is tied to "
               "p2panda-core/src/cursor.rs and p2panda/src/streams/acked.rs on every run: real Cursor::advance sequences and real Acked::ack calls "
               "(several Acked instances over one SqliteStore, cursor read back through Acked::cursor and CursorStore::get_cursor after every call) "
-              "are compared with the model step by step; the oracle is evaluated on the implementation's observations. "
-              "A few cases per run go through a real Node: two topic streams, published operations, the public StreamSubscription::ack. "
-              "Partial: one ack is modelled as atomic (what the instance's one-permit semaphore provides).")
+              "are compared with the model step by step; concurrent calls (join_all and spawned tasks, current-thread and multi-thread runtime, in-memory and "
+              "file-backed default-pool store) are held at schedule points inside Acked::cursor / Acked::ack / SqliteStore::begin and released one label at a time, "
+              "the persisted cursor being read after every label; the oracle is evaluated on the implementation's observations. "
+              "A few cases per run go through a real Node: two topic streams, published operations, the public StreamSubscription::ack.")
 LEVEL_NOTE = ("Trusted: Coq kernel + vm_compute; hand-written model; SQLite upsert/select of cursors_v1 and the CBOR round trip of a cursor "
-              "(exercised by every ack case, not proved); BLAKE3 log ids of distinct topics distinct; harness/python glue. "
+              "(exercised by every ack case, not proved); tokio's Semaphore (one permit, FIFO hand-over, release on drop: modelled, exercised by the scheduled cases); "
+              "BLAKE3 log ids of distinct topics distinct; harness/python glue. "
               "Two separately constructed Acked values with the same cursor name do not share a semaphore: the lost-update interleaving is "
               "exhibited in the model (Proofs/Cursor.v two_instances_can_regress) and lies outside the property's quantifier.")
-ASSUMPTIONS = ["each Acked::ack call is atomic with respect to other calls on the same cursor name (one Acked, and its clones, per cursor name: the semaphore in acked.rs)",
+ASSUMPTIONS = ["one Acked (and its clones) per cursor name: calls through separately constructed instances with the same name are not serialised by anything",
+               "tokio::sync::Semaphore: one permit, handed over in FIFO order, released when the guard is dropped; a SELECT through the pool sees exactly the committed upserts",
                "LogId::from_topic is injective on the topics used (BLAKE3)",
                "the cursors_v1 table behaves as a finite map keyed by name and decode_cbor(encode_cbor(cursor)) = cursor"]
-TRUSTED = ["modelled not verified: SQLite cursor table, CBOR cursor encoding, tokio Semaphore (atomicity of one ack), BTreeMap"]
+TRUSTED = ["modelled not verified: SQLite cursor table, CBOR cursor encoding, tokio Semaphore, BTreeMap"]
 RULE = ("node = random histories on a real Node (explicit ack policy, two topic streams, 1-4 published operations each, 3-8 calls of "
         "StreamSubscription::ack incl. cross-topic ones; 6 quick / 40 thorough); quick: adv = all advance sequences of length <= 3 over 2 logs x heights {0,1,2} (259) and 400 random ones of length 4, all 120 orders of 3 random 5-advance multisets over "
         "3 authors x 3 logs, 200 random sequences (<= 40 advances, initial state, heights up to u32::MAX); ack = all sequences of length <= 2 over "
         "2 default-named topic streams x 2 authors x 2 topics x seq {0,1,2} (601) and 300 random histories (1-4 instances with default or custom, "
-        "possibly shared names, 3 topics of which one is tracked by nobody, <= 14 acks). thorough: adv length <= 5 (9331) + 20 multisets x 120 orders "
-        "+ 2000 random; ack length <= 2 as in quick + all 1728 length-3 sequences with one author + 3000 random (<= 40 acks). "
-        "non-trivial = adv: some advance was ignored (lower than the current height); ack: both an accepted and a rejected ack occur")
+        "possibly shared names, 3 topics of which one is tracked by nobody, <= 14 acks); conc = 24 of the 252 interleavings of two calls (all 252 in thorough), "
+        "64 random label lists for 2-5 calls (every call gets >= 5 labels + 30% labels that hit queued or returned calls; own- and foreign-topic headers, half of them one log "
+        "with descending heights) and 32 free-running bursts of 2-8 calls, cycling through {current-thread, multi-thread} x {join_all, spawned tasks} x {in-memory, file-backed default pool}. "
+        "thorough: adv length <= 5 (9331) + 20 multisets x 120 orders "
+        "+ 2000 random; ack length <= 2 as in quick + all 1728 length-3 sequences with one author + 3000 random (<= 40 acks); conc 252 + 800 + 400. "
+        "non-trivial = adv: some advance was ignored (lower than the current height); ack: both an accepted and a rejected ack occur; conc: some call was "
+        "really queued on the semaphore behind another one (scheduled) / at least two calls (free running)")
 
 
 # ---------------------------------------------------------------- generators
@@ -84,6 +99,44 @@ def _rand_node(rng):
     return {"kind": "node", "counts": counts, "ops": ops}
 
 
+CONC_CFGS = ["cjm", "cjf", "csm", "csf", "mjm", "mjf", "msm", "msf"]   # runtime, join_all/spawn, memory/file
+
+
+def _interleave(rng, k, per=5, extra=0.3):
+    """A label list in which every call gets at least `per` labels (enough to return when it is
+    never queued), randomly interleaved, plus some labels that hit queued / returned calls."""
+    labels = [i for i in range(k) for _ in range(per)]
+    labels += [rng.randrange(k) for _ in range(int(len(labels) * extra))]
+    rng.shuffle(labels)
+    return labels
+
+
+def _rand_conc(rng, cfg, free=False):
+    k = rng.randint(2, 8 if free else 5)
+    t = rng.randrange(2)
+    nauth = rng.randint(1, 3)
+
+    def hdr():
+        lt = t if rng.random() < 0.85 else 1 - t
+        return [rng.randrange(nauth), lt, rng.randrange(0, 8)]
+    init = [hdr() for _ in range(rng.choice([0, 0, 1, 2]))]
+    acks = [hdr() for _ in range(k)]
+    if rng.random() < 0.5:
+        # one log, descending heights: a stale overwrite moves the cursor backwards
+        top = rng.randrange(k, k + 4)
+        acks = [[0, t, top - i] for i in range(k)]
+    return {"kind": "conc", "cfg": cfg, "topic": t, "init": init, "acks": acks,
+            "sched": None if free else _interleave(rng, k)}
+
+
+def _two_call_schedules():
+    """All interleavings of two calls with five labels each (252)."""
+    out = []
+    for pos in itertools.combinations(range(10), 5):
+        out.append([0 if i in pos else 1 for i in range(10)])
+    return out
+
+
 def _as_ack(case):
     """A node case is an ack case: two default-named topic streams, the node's key is author 0."""
     if case["kind"] != "node":
@@ -124,6 +177,17 @@ def gen(tier, rng):
             yield {"kind": "ack", "insts": insts, "ops": [list(o) for o in ops]}
     for _ in range(300 if quick else 3000):
         yield _rand_ack(rng, 14 if quick else 40)
+    # conc: several acks in flight at once through ONE Acked, schedule replayed step by step
+    two = _two_call_schedules()
+    pick = rng.sample(two, 24) if quick else two
+    for n, sch in enumerate(pick):
+        # two authors / one author with descending heights, alternating
+        acks = [[0, 0, 5], [1, 0, 3]] if n % 2 else [[0, 0, 5], [0, 0, 3]]
+        yield {"kind": "conc", "cfg": CONC_CFGS[n % 8], "topic": 0, "init": [], "acks": acks, "sched": sch}
+    for n in range(64 if quick else 800):
+        yield _rand_conc(rng, CONC_CFGS[n % 8])
+    for n in range(32 if quick else 400):
+        yield _rand_conc(rng, CONC_CFGS[n % 8], free=True)
 
 
 # ---------------------------------------------------------------- rendering
@@ -134,6 +198,10 @@ def _name_idx(inst):
 
 
 def harness_line(case):
+    if case["kind"] == "conc":
+        tr = lambda xs: ", ".join("%d %d %d" % tuple(x) for x in xs)
+        sch = "free" if case["sched"] is None else " ".join(map(str, case["sched"]))
+        return "conc %s %d ; %s ; %s ; %s" % (case["cfg"], case["topic"], tr(case["init"]), tr(case["acks"]), sch)
     if case["kind"] == "node":
         return "node %d %d ; %s" % (case["counts"][0], case["counts"][1], " ; ".join("%d %d %d" % tuple(o) for o in case["ops"]))
     if case["kind"] == "adv":
@@ -161,11 +229,47 @@ def _coq_ops(ops):
     return "[" + ";".join("(%d%%nat,{|hauthor:=%d;hlog:=%d;hseq:=%d|})" % (i, a, t, h) for i, a, t, h in ops) + "]"
 
 
+def _coq_hdrs(hs):
+    return "[" + ";".join("{|hauthor:=%d;hlog:=%d;hseq:=%d|}" % (a, t, h) for a, t, h in hs) + "]"
+
+
+def _coq_conc_k(case):
+    return "{|aname:=%d;atopic:=%d|}" % (1000 + case["topic"], case["topic"])
+
+
+def _parse_conc(impl):
+    """-> (init, [steps], [results], final) or None."""
+    parts = impl.split(" | ")
+    if len(parts) != 3:
+        return None
+    steps = [p.strip() for p in parts[0].split(" ; ")]
+
+    def st(tok):
+        if not (tok.startswith("[") and tok.endswith("]")):
+            raise ValueError(tok)
+        return _parse_state(tok[1:-1])
+    try:
+        init = st(steps[0])
+        rest = []
+        for p in steps[1:]:
+            letters, _, cur = p.partition(" ")
+            if not letters or any(c not in "IWHRBNKX" for c in letters):
+                return None
+            rest.append((letters, st(cur)))
+        fin = st(parts[2].strip())
+    except ValueError:
+        return None
+    return init, rest, parts[1].split(), fin
+
+
 def _init_sorted(case):
     return sorted([a, sorted(inner)] for a, inner in case["init"] if inner)
 
 
 def coq_model(case):
+    if case["kind"] == "conc":
+        sch = "[" + ";".join(map(str, case["sched"] or [])) + "]%nat"
+        return "model_line_conc %s %s %s %s" % (_coq_conc_k(case), _coq_hdrs(case["init"]), _coq_hdrs(case["acks"]), sch)
     case = _as_ack(case)
     if case["kind"] == "adv":
         return "model_line_adv %s %s" % (_coq_heights(_init_sorted(case)), _coq_xs(case["xs"]))
@@ -211,6 +315,15 @@ def _parse_ack(impl):
 def coq_oracle(case, impl):
     if impl.startswith("PANIC") or "RAWDIFF" in impl or "?" in impl:
         return "false"
+    if case["kind"] == "conc":
+        p = _parse_conc(impl)
+        if p is None:
+            return "false"
+        init, steps, res, fin = p
+        rmap = {"ok": "Some AckOk", "InvalidTopic": "Some AckInvalidTopic"}
+        return "check_conc %s %s %s [%s] [%s] %s" % (
+            _coq_conc_k(case), _coq_hdrs(case["acks"]), _coq_heights(init),
+            ";".join(_coq_heights(c) for _, c in steps), ";".join(rmap.get(r, "None") for r in res), _coq_heights(fin))
     case = _as_ack(case)
     if case["kind"] == "adv":
         if "|" not in impl:
@@ -229,6 +342,12 @@ def coq_oracle(case, impl):
 def nontrivial(case, impl):
     if impl.startswith("PANIC"):
         return False
+    if case["kind"] == "conc":
+        p = _parse_conc(impl)
+        if p is None:
+            return False
+        # a call was really queued on the semaphore behind another one / several calls ran freely
+        return any("W" in letters for letters, _ in p[1]) if case["sched"] is not None else len(case["acks"]) >= 2
     if case["kind"] == "adv":
         if "|" not in impl:
             return False
@@ -238,6 +357,29 @@ def nontrivial(case, impl):
 
 
 def shrink(case):
+    if case["kind"] == "conc":
+        acks, sch = case["acks"], case["sched"]
+        for i in range(len(acks)):
+            if len(acks) > 1:
+                c = dict(case)
+                c["acks"] = acks[:i] + acks[i + 1:]
+                if sch is not None:
+                    c["sched"] = [x - (1 if x > i else 0) for x in sch if x != i]
+                yield c
+        if sch is not None:
+            for i in range(len(sch)):
+                c = dict(case)
+                c["sched"] = sch[:i] + sch[i + 1:]
+                yield c
+        if case["init"]:
+            c = dict(case)
+            c["init"] = []
+            yield c
+        if case["cfg"] != "cjm":
+            c = dict(case)
+            c["cfg"] = "cjm"
+            yield c
+        return
     if case["kind"] == "node":
         ops = case["ops"]
         for i in range(len(ops)):
@@ -274,7 +416,17 @@ def distribution(cases, impl):
                     res[r] += 1
                 elif r:
                     res["other"] += 1
-    return {"adv_cases": len(adv), "ack_cases": len(ack), "node_cases": sum(1 for c in cases if c["kind"] == "node"),
+    conc = [(i, c) for i, c in enumerate(cases) if c["kind"] == "conc"]
+    cfgs, queued = {}, 0
+    for i, c in conc:
+        key = c["cfg"] + ("-free" if c["sched"] is None else "")
+        cfgs[key] = cfgs.get(key, 0) + 1
+        p = _parse_conc(impl.get(i, ""))
+        if p and any("W" in letters for letters, _ in p[1]):
+            queued += 1
+    return {"conc_cases": len(conc), "conc_configs": cfgs, "conc_with_queued_call": queued,
+            "max_conc_calls": max([len(c["acks"]) for _, c in conc] or [0]),
+            "adv_cases": len(adv), "ack_cases": len(ack), "node_cases": sum(1 for c in cases if c["kind"] == "node"),
             "max_adv_len": max([len(c["xs"]) for c in adv] or [0]), "max_ack_len": max([len(c["ops"]) for c in ack] or [0]),
             "ack_results": res,
             "shared_name_configs": sum(1 for c in ack if c["kind"] == "ack" and len({_name_idx(i) for i in c["insts"]}) < len(c["insts"])),
